@@ -8,6 +8,7 @@ import (
 	"math/rand"
 	"os"
 	"runtime"
+	debugpkg "runtime/debug"
 	"sort"
 	"strings"
 	"time"
@@ -23,7 +24,7 @@ import (
 func init() {
 	driver.Register(&driver.Engine{
 		ID: "C17", Level: "exploration",
-		Rule: "each case is one program text + dialect option vector: P1=SourceProgramOptions, bytes1=P1.Write, P2=CompiledProgram(bytes1), bytes2=P2.Write, P3=CompiledProgram(bytes2); oracle: bytes2==bytes1==bytes3 and Record(P1)==Record(P2)==Record(P2 again)==Record(P3), Record = host events in order (t/tick/trace/print/load/assert stubs with canonical arguments, step count and full call stack positions), calling-frame docstrings and local bindings (DebugFrame), canon globals, canon error with every frame and the backtrace text, ExecutionSteps, Program.Filename/NumLoads/Load(i), and every accessor of every function reachable from globals or passed to the host. Families: (a) gen semantic programs x 64 option vectors x random layouts, (b) directed constants/metadata programs (int64 extremes, big ints, floats, bytes with all 256 values, non-UTF-8 and long strings, docstrings, >255 and >65536 constants, >255 locals/globals/names/params/free variables/functions, 10-14 levels of closures, parameter forms, several aliased loads, comprehensions, recursion on/off), (c) position-table stress (thousands of instructions, 10^5-line gaps, column 10^4, huge loop/branch bodies) with failing runs, (d) the repository's testdata chunks run against a recording assert stub. distinct = distinct (program text, options) whose execution produced >=1 host event or >=1 function value",
+		Rule: "each case is one program text + dialect option vector: P1=SourceProgramOptions (or FileProgram of the patched tree), bytes1=P1.Write, P2=CompiledProgram(bytes1), bytes2=P2.Write, P3=CompiledProgram(bytes2); oracle: bytes2==bytes1==bytes3 and Record(P1)==Record(P2)==Record(P2 again)==Record(P3), Record = host events in order (t/tick/trace/print/load/assert stubs with canonical arguments, step count and full call stack positions), calling-frame docstrings and local bindings (DebugFrame), canon globals, canon error with every frame and the backtrace text, ExecutionSteps, Program.Filename/NumLoads/Load(i), and every accessor of every function reachable from globals or passed to the host. Families: (a) gen semantic programs x 64 option vectors x random layouts, (b) directed constants/metadata programs (int64 extremes, big ints, floats, bytes with all 256 values, long strings, non-UTF-8 string constants and docstrings (placed in the syntax tree and compiled with FileProgram, since no source text denotes them), docstrings, >255 and >65536 constants, >255 locals/globals/names/params/free variables/functions, 10-14 levels of closures, parameter forms, several aliased loads, comprehensions, recursion on/off), (c) position-table stress (thousands of instructions, 10^5-line gaps, column 10^4, huge loop/branch bodies) with failing runs, (d) the repository's testdata chunks run against a recording assert stub. distinct = distinct (program text, options) whose execution produced >=1 host event or >=1 function value",
 		Assumptions: []string{
 			"canon renderings and the host-event log distinguish every behaviour the property lists (results, prints, errors, backtrace positions, docstrings, parameter metadata, loads)",
 			"the independent reader of the encoding (inspect.go) is used for evidence and for naming the differing section only, never for the verdict",
@@ -46,6 +47,34 @@ type input struct {
 	corpus   bool
 	maxSteps uint64
 	feats    []string
+	patch    bool // string literals "@@NU8:<hex>" stand for the (non-UTF-8) bytes <hex>: compile via FileProgram
+}
+
+const nu8 = "@@NU8:"
+
+// nonUTF8Literal spells a string literal that patchedProgram turns into the given raw bytes.
+func nonUTF8Literal(raw string) string { return fmt.Sprintf("\"%s%x\"", nu8, raw) }
+
+// patchedProgram parses the source, replaces the marked string literals in the syntax tree by byte
+// strings that no source text can denote (the scanner rejects \xff escapes in str literals and turns
+// raw invalid bytes into U+FFFD), and compiles the tree with FileProgram.
+func patchedProgram(opts *syntax.FileOptions, in *input) (*starlark.Program, error) {
+	f, err := opts.Parse(in.filename, in.src, 0)
+	if err != nil {
+		return nil, err
+	}
+	syntax.Walk(f, func(n syntax.Node) bool {
+		if lit, ok := n.(*syntax.Literal); ok && lit.Token == syntax.STRING {
+			if v, ok := lit.Value.(string); ok && strings.HasPrefix(v, nu8) {
+				var raw []byte
+				if _, err := fmt.Sscanf(v[len(nu8):], "%x", &raw); err == nil {
+					lit.Value = string(raw)
+				}
+			}
+		}
+		return true
+	})
+	return starlark.FileProgram(f, isPredeclared(in.corpus))
 }
 
 func finish(ev map[string]any) (string, bool) {
@@ -68,6 +97,18 @@ func finish(ev map[string]any) (string, bool) {
 			missing = append(missing, "outcome "+k)
 		}
 	}
+	for _, k := range []string{"saturated-delta", "negative-line-delta"} {
+		if !has("linetab", k) {
+			missing = append(missing, "line table with "+k)
+		}
+	}
+	if counters, ok := ev["counters"].(map[string]int64); ok {
+		for _, k := range []string{"functions_compared", "backtraces_compared", "events_compared", "programs_with_loads", "programs_with_recursion_flag", "functions_with_doc", "functions_with_kwonly"} {
+			if counters[k] == 0 {
+				missing = append(missing, k)
+			}
+		}
+	}
 	if len(missing) > 0 {
 		return "workload never produced: " + strings.Join(missing, ", "), true
 	}
@@ -77,6 +118,8 @@ func finish(ev map[string]any) (string, bool) {
 func run(c *driver.Ctx) {
 	// One child per core runs in parallel; the work of a child is sequential, so more GC workers only thrash.
 	runtime.GOMAXPROCS(2)
+	// The largest directed programs (MiB-sized sources) leave a lot of garbage; keep the child well under 1 GB.
+	debugpkg.SetMemoryLimit(700 << 20)
 	n := c.Pick(3000, 300000)
 	heavy := heavyRecipes()
 	chunks := loadCorpus()
@@ -217,7 +260,11 @@ func check1(c *driver.Ctx, r *rand.Rand, in *input) {
 	var err error
 	opts := in.opts
 	if pn := sl.Safe(func() {
-		_, p1, err = starlark.SourceProgramOptions(&opts, in.filename, in.src, isPredeclared(in.corpus))
+		if in.patch {
+			p1, err = patchedProgram(&opts, in)
+		} else {
+			_, p1, err = starlark.SourceProgramOptions(&opts, in.filename, in.src, isPredeclared(in.corpus))
+		}
 	}); pn != nil {
 		// a compiler crash is C02's business; nothing to round-trip
 		c.Count("compile_panics", 1)
